@@ -43,6 +43,8 @@ class State:
         n.nchoice = s.nchoice; n.notes = list(s.notes); n.decisions = s.decisions; n.clock = s.clock
         n.tasks = None if s.tasks is None else {k: (set(a), set(b)) for k, (a, b) in s.tasks.items()}
         n.loopcnt = dict(s.loopcnt); n.fidx = s.fidx; n.facts = dict(s.facts)
+        if 'flmemo' in s.__dict__: n.flmemo = dict(s.flmemo)
+        if 'rngcache' in s.__dict__: n.rngcache = dict(s.rngcache)
         return n
 
 class Engine:
